@@ -37,6 +37,7 @@ pub fn configs(tier: Tier) -> Vec<Box<dyn Config>> {
     let sse2 = super::width() == 16;
     let q = tier == Tier::Quick;
     let mut v: Vec<Box<dyn Config>> = Vec::new();
+    v.push(Box::new(super::widebattery::WideBattery { tier, part: super::widebattery::Part::Clone }));
     // a clone that panics part-way must not leak or double-drop the clones made so far (details: C04)
     v.push(super::c04::mk::<TKey, TVal>(Plan::Zero, if q { 4 } else { 6 }, vec![vec![]], None, tier, false, "-faults"));
     if sse2 {
